@@ -116,6 +116,7 @@ def model_only(sh, rng, n):
                 t.columns.append(c)
         db = apibuild.build(doc)
         twin = apibuild.build(doc)              # built identically, NOT rendered before the edits below
+        twin_of = {id(a_): b_ for a_, b_ in zip(db.tables, twin.tables)}      # (taken now: positions may not be trusted later)
         names = [qn(t) for t in doc.tables]
         try:
             first = table_order(db)
@@ -174,15 +175,14 @@ def model_only(sh, rng, n):
                 dests = [t for t in db.tables if t is not src and t is not other]
                 if dests and len(src.columns) > 1 and not any(col in ix.subjects for ix in src.indexes):
                     dst = rng.choice(dests)
-                    ti_src, ti_dst = db.tables.index(src), db.tables.index(dst)
                     ci = src.columns.index(col)
                     used_elsewhere = [q for q in db.refs if q is not r and (col in q.col1 or col in q.col2)]
                     if not used_elsewhere and all(c_.name != col.name for c_ in dst.columns):
                         src.delete_column(col)
                         dst.add_column(col)
-                        tcol = twin.tables[ti_src].columns[ci]
-                        twin.tables[ti_src].delete_column(tcol)
-                        twin.tables[ti_dst].add_column(tcol)
+                        tcol = twin_of[id(src)].columns[ci]
+                        twin_of[id(src)].delete_column(tcol)
+                        twin_of[id(dst)].add_column(tcol)
                         flips += 1
                         sh.count('obs.fk_column_moved')
         detached_fk = False
@@ -197,9 +197,9 @@ def model_only(sh, rng, n):
                 src = col.table
                 if len(src.columns) > 1 and not any(col in ix.subjects for ix in src.indexes) and \
                         not any(q is not r and (col in q.col1 or col in q.col2) for q in db.refs):
-                    ti_src, ci = db.tables.index(src), src.columns.index(col)
+                    ci = src.columns.index(col)
                     src.delete_column(col)
-                    twin.tables[ti_src].delete_column(twin.tables[ti_src].columns[ci])
+                    twin_of[id(src)].delete_column(twin_of[id(src)].columns[ci])
                     detached_fk = True
                     sh.count('obs.fk_column_detached')
         if detached_fk:
